@@ -40,6 +40,8 @@ macro_rules! ans_impl {
             // op 16 forks a twin that receives every later encode/decode/reload but none of the
             // inspections (C08): its results are printed right after the main coder's
             let mut twin: Option<AnsCoder<$W, $S, Vec<$W>>> = None;
+            let mut stash: Option<AnsCoder<$W, $S, Vec<$W>>> = None;
+            let mut clones = 0u32;
             while !r.done() {
                 let op = r.next();
                 match op {
@@ -224,8 +226,18 @@ macro_rules! ans_impl {
                         out.extend(res.iter().map(|&s| s as Int));
                     }
                     14 => {
-                        let c2 = coder.clone();
-                        coder = c2;
+                        // the coder is replaced by a copy of itself: alternately made with clone()
+                        // and with clone_from() into a STALE scratch coder (the coder as it was at
+                        // an earlier op 14); a copy is the same coder whatever the scratch held
+                        clones += 1;
+                        if clones % 2 == 1 {
+                            let c2 = coder.clone();
+                            stash = Some(core::mem::replace(&mut coder, c2));
+                        } else {
+                            let mut scratch = stash.take().unwrap_or_else(AnsCoder::new);
+                            scratch.clone_from(&coder);
+                            stash = Some(core::mem::replace(&mut coder, scratch));
+                        }
                         out.push(0);
                     }
                     15 => {
